@@ -59,6 +59,7 @@ class Root:
     sc: list[Child] = field(default_factory=list, metadata={"type": "Element", "sequence": 1})
     sn: Optional[int] = field(default=None, metadata={"type": "Element", "nillable": True, "sequence": 2})
     sl: list[str] = field(default_factory=list, metadata={"type": "Element", "nillable": True, "sequence": 2})
+    so: Optional[object] = field(default=None, metadata={"type": "Element", "sequence": 2})
     nz: Optional[int] = field(default=None, metadata={"type": "Element", "nillable": True})
     nb: Optional[bool] = field(default=None, metadata={"type": "Element", "nillable": True})
     nl: list[str] = field(default_factory=list, metadata={"type": "Element", "nillable": True})
@@ -85,7 +86,7 @@ INST_RICH = {"__cls__": "Root", "fields": {
     "sb": {"__p__": "str", "v": "mid"},
     "sc": [{"__cls__": "Child", "fields": {"value": {"__p__": "int", "v": 9}, "flag": None, "tags": []}},
            {"__cls__": "Child", "fields": {"value": None, "flag": {"__p__": "bool", "v": True}, "tags": []}}],
-    "sn": None, "sl": [{"__p__": "str", "v": "p"}, {"__p__": "str", "v": "q"}],
+    "sn": None, "sl": [{"__p__": "str", "v": "p"}, {"__p__": "str", "v": "q"}], "so": {"__p__": "str", "v": "x  y"},
     "nz": {"__p__": "int", "v": 0}, "nb": {"__p__": "bool", "v": False},
     "nl": [{"__p__": "str", "v": "a"}, {"__p__": "str", "v": "b c"}], "nn": None,
     "nc": {"__cls__": "Child", "fields": {"value": {"__p__": "int", "v": 0}, "flag": {"__p__": "bool", "v": True}, "tags": []}},
@@ -293,7 +294,7 @@ Import ListNotations.
    default, int tokens), elements (str, unqualified str holding '', int list, token list, list of
    token lists, nested simple-content class, a wrapped list of it, an empty wrapped list, a sequence
    group of an int list, an optional str and a class list, a second sequence group of a nillable int field holding None
-   (written <sn xsi:nil="true"/> in round 0) and a nillable str list, nillable int / bool fields holding the falsy
+   (written <sn xsi:nil="true"/> in round 0), a nillable str list and an xs:anyType element, nillable int / bool fields holding the falsy
    values 0 / False, a nillable str list and a nillable str field holding None, written
    <nn xsi:nil="true"/>, a nillable field of class type holding an instance with content and another one
    holding None, a list of instances with content of a nillable class, two xs:anyType elements holding a str
@@ -457,6 +458,7 @@ GUARD_PREDS = {
     "in_guard_xsi": "fun k => negb (in_guard_w k && uses_xsi_type k)",
     "in_guard_nillable": "fun k => negb (in_guard_w k && uses_nillable (rc_universe k))",
     "in_guard_nillable_seq": "fun k => negb (in_guard_w k && uses_nillable_in_sequence (rc_universe k))",
+    "in_guard_generic_seq": "fun k => negb (in_guard_w k && uses_generic_in_sequence (rc_universe k))",
     "in_guard_nillable_class": "fun k => negb (in_guard_w k && uses_nillable_class (rc_universe k))",
     "in_guard_anytype": "fun k => negb (in_guard_w k && uses_anytype (rc_universe k) (rc_cls k))",
     "in_guard_maps": "fun k => negb (in_guard_w k && uses_maps (rc_universe k) (rc_cls k))",
@@ -511,6 +513,7 @@ def guard_layer(ck, jobs, stats):
     stats["guard_inside_with_subclass_instance"] = len(bad["in_guard_xsi"])
     stats["guard_inside_with_nillable_field"] = len(bad["in_guard_nillable"])
     stats["guard_inside_with_nillable_field_in_sequence_group"] = len(bad["in_guard_nillable_seq"])
+    stats["guard_inside_with_anytype_or_wildcard_in_sequence_group"] = len(bad["in_guard_generic_seq"])
     stats["guard_inside_with_nillable_class"] = len(bad["in_guard_nillable_class"])
     stats["guard_inside_with_anytype_element"] = len(bad["in_guard_anytype"])
     stats["guard_inside_with_attribute_map"] = len(bad["in_guard_maps"])
